@@ -630,6 +630,14 @@ def long_inputs(rng, n):
     return shapes
 
 
+def char_cut(s, k, fam):
+    """s[:k], moved back to a character boundary for the UTF-8 families (they are only given valid UTF-8)"""
+    if '8' in fam:
+        while 0 < k < len(s) and (s[k] & 0xC0) == 0x80:
+            k -= 1
+    return s[:k]
+
+
 def long_cases(rng, n):
     cases = []
     for s in long_inputs(rng, n):
@@ -638,8 +646,8 @@ def long_cases(rng, n):
             fams = [enc, 't' + enc] + ([enc + '8'] if is_utf8(s) else [])
             for fam in fams:
                 cases += [case('c03.' + fam, s, sc), case('c09.' + fam, s), case('c11.' + fam, s), case('c12.' + fam, s, b'n'),
-                          case('c13.' + fam, s, b'e'), case('c17.' + fam, s), case('c05.' + fam, s, s[:-1]),
-                          case('c10.' + fam, s, s[:len(s) // 2]), case('c04.' + fam, b'base', s), case('c04.' + fam, s, b'x/../y'),
+                          case('c13.' + fam, s, b'e'), case('c17.' + fam, s), case('c05.' + fam, s, char_cut(s, len(s) - 1, fam)),
+                          case('c10.' + fam, s, char_cut(s, len(s) // 2, fam)), case('c04.' + fam, b'base', s), case('c04.' + fam, s, b'x/../y'),
                           case('c08.' + fam, s, b'tail')]
                 if fam in ('u', 'w', 'u8', 'w8'):
                     cases.append(case('c16.' + fam, s))
